@@ -96,6 +96,7 @@ class WorkLoad(ResourceConstraint):
                     cond2 = z3.And(
                         start_task_i < time_interval_lower_bound,
                         end_task_i > time_interval_lower_bound,
+                        end_task_i <= time_interval_upper_bound,
                     )
                     asst2 = z3.Implies(
                         cond2, dur == end_task_i - time_interval_lower_bound
@@ -103,6 +104,7 @@ class WorkLoad(ResourceConstraint):
                     self.set_z3_assertions(asst2)
                     # overlap at upper bound
                     cond3 = z3.And(
+                        start_task_i >= time_interval_lower_bound,
                         start_task_i < time_interval_upper_bound,
                         end_task_i > time_interval_upper_bound,
                     )
